@@ -16,7 +16,8 @@ EXPLANATION = (
     "depth <= 2 over leaves {true,false,absent}: the smallest disagreeing formula per connective is reported. The "
     "translator's fallback (Predicate::Expr) is evaluated by the VPL evaluator itself and agrees by construction."
 )
-DECIDED = ["comparison rows (operand type pairs) on which the two evaluators disagree", "connectives whose treatment of an absent operand differs"]
+DECIDED = ["comparison rows (operand type pairs) on which the two evaluators disagree", "connectives whose treatment of an absent operand differs",
+           "each ordering operator of the step evaluator is true exactly on its orderings and false for incomparable operands"]
 NOT_DECIDED = ["agreement for expressions the translator hands to Predicate::Expr beyond it being the same evaluator", "float rounding inside a row"]
 
 R = "varpulis_runtime::"
